@@ -198,7 +198,8 @@ def project_d(lines):
             elif ev == "h_notify":
                 evs.append({"a": "notify", "t": tnum(r["t"])})
             elif ev == "h_signal":
-                if not any(e.get("a") == "signal" for e in evs):
+                # (free-running mode: a signal the driver sends after engine::run has returned has nothing left to act on)
+                if not any(e.get("a") in ("signal", "exit") for e in evs):
                     evs.append({"a": "signal"})
             elif ev == "root_loop_exit":
                 if r.get("signalled"):
@@ -206,7 +207,9 @@ def project_d(lines):
                         evs.append({"a": "signal"})     # free-running binary: the signal arrived some time before
                     evs.append({"a": "seesig"})
                 if not cfg["watch"]:
-                    waits = any(x["ev"] == "root_wait_signal" for x in run[i + 1:i + 3])
+                    # the next step of the ROOT thread (other threads' events may be logged in between in free-running mode)
+                    nxt = next((x["ev"] for x in run[i + 1:] if x["ev"] in ("root_wait_signal", "engine_result", "terminate_begin", "h_exit")), "")
+                    waits = nxt == "root_wait_signal"
                     evs.append({"a": "loopexit", "waits": waits})
             elif ev == "root_wait_signal":
                 waited = True
